@@ -416,6 +416,165 @@ func rawAmmo() string {
 	return b.String()
 }
 
+// middlewares: the provider's request middlewares (run by Provider.Acquire in the instance's goroutine, after
+// BuildRequest): date = header/date with its defaults, datex = another header name and location, date2 = both
+func middlewares(mw string) []any {
+	switch mw {
+	case "date":
+		return []any{map[string]any{"type": "header/date"}}
+	case "datex":
+		return []any{map[string]any{"type": "header/date", "location": "EST", "headerName": "X-Date"}}
+	case "date2":
+		return []any{map[string]any{"type": "header/date"}, map[string]any{"type": "header/date", "headerName": "X-Date"}}
+	case "datem":
+		// the middleware's header is one the ammo has values for already (chdr=multi: three of them)
+		return []any{map[string]any{"type": "header/date", "headerName": "X-Multi"}}
+	}
+	return nil
+}
+
+// mwHeaders: the header names the middlewares of a case add (their values are time stamps)
+func mwHeaders(mw string) map[string]bool {
+	switch mw {
+	case "date":
+		return map[string]bool{"Date": true}
+	case "datex":
+		return map[string]bool{"X-Date": true}
+	case "date2":
+		return map[string]bool{"Date": true, "X-Date": true}
+	case "datem":
+		return map[string]bool{"X-Multi": true}
+	}
+	return map[string]bool{}
+}
+
+const fixedDate = "Thu, 01 Jan 1970 00:00:00 GMT"
+
+// ammoEntries: the number of ammo in the file of an http / grpc-json pool
+func ammoEntries(kind string, kv map[string]string) int {
+	if k, err := strconv.Atoi(kv["am"]); err == nil && k > 0 && kind != "grpcjson" {
+		return k
+	}
+	switch kind {
+	case "uri", "grpcjson":
+		return 4
+	}
+	return 3
+}
+
+// httpAmmoFile: the ammo file of an http pool.
+//
+//	hdr=   the headers the FILE gives its ammo: "" = the historic files of this driver (with a Host header), nohost =
+//	       headers but no Host, none = no header at all, date = a Date header of the ammo's own (and no Host)
+//	am=<k> number of ammo in the file (with fewer ammo than instances — or with an instance that keeps its ammo while
+//	       the others go through a whole pass — two outstanding requests come from ONE decoded ammo when the provider
+//	       preloads, or reads a JSON array)
+//	arr=1  http/json: the file is one JSON array instead of one object per line
+func httpAmmoFile(kind string, kv map[string]string) string {
+	hdr, legacy := kv["hdr"], kv["hdr"] == "" && kv["am"] == "" && kv["arr"] == ""
+	k := ammoEntries(kind, kv)
+	var hs [][2]string
+	switch hdr {
+	case "":
+		hs = [][2]string{{"Host", "example.org"}, {"X-A", "a"}}
+	case "nohost":
+		hs = [][2]string{{"X-A", "a"}}
+	case "date":
+		hs = [][2]string{{"Date", fixedDate}, {"X-A", "a"}}
+	}
+	var b strings.Builder
+	switch kind {
+	case "uri":
+		if legacy {
+			pre := ""
+			switch kv["fail"] {
+			case "status":
+				pre = "/e500"
+			case "body":
+				pre = "/ebody"
+			}
+			return c11lib.WriteFile(".uri", "[Host: example.org]\n[X-A: a]\n"+pre+"/one t1\n"+pre+"/two t2\n[X-B: b]\n"+pre+"/three\n"+pre+"/four t4\n")
+		}
+		for _, h := range hs {
+			fmt.Fprintf(&b, "[%s: %s]\n", h[0], h[1])
+		}
+		for i := 1; i <= k; i++ {
+			if i == 3 {
+				b.WriteString("[X-B: b]\n")
+			}
+			fmt.Fprintf(&b, "/u%d t%d\n", i, i)
+		}
+		return c11lib.WriteFile(".uri", b.String())
+	case "uripost":
+		if legacy {
+			return c11lib.WriteFile(".uripost", "[X-A: a]\n5 /p1 t1\nhello\n7 /p2 t2\nworld!!\n[X-B: b]\n3 /p3\nabc\n")
+		}
+		for _, h := range hs {
+			fmt.Fprintf(&b, "[%s: %s]\n", h[0], h[1])
+		}
+		for i := 1; i <= k; i++ {
+			if i == 3 {
+				b.WriteString("[X-B: b]\n")
+			}
+			body := strings.Repeat("x", 2+i)
+			fmt.Fprintf(&b, "%d /p%d t%d\n%s\n", len(body), i, i, body)
+		}
+		return c11lib.WriteFile(".uripost", b.String())
+	case "raw":
+		if legacy {
+			return c11lib.WriteFile(".raw", rawAmmo())
+		}
+		for i := 1; i <= k; i++ {
+			r := fmt.Sprintf("GET /raw%d HTTP/1.1\r\n", i)
+			body := ""
+			if i%2 == 0 && hdr != "none" {
+				body = strings.Repeat("y", i)
+				r = fmt.Sprintf("POST /raw%d HTTP/1.1\r\nContent-Length: %d\r\n", i, len(body))
+			}
+			if hdr == "none" {
+				// the request's own header block holds the Host line only: the built request has no headers of its own
+				r += "Host: example.org\r\n"
+			}
+			for _, h := range hs {
+				r += h[0] + ": " + h[1] + "\r\n"
+			}
+			r += "\r\n" + body
+			fmt.Fprintf(&b, "%d t%d\n%s\n", len(r), i, r)
+		}
+		return c11lib.WriteFile(".raw", b.String())
+	case "httpjson":
+		if legacy {
+			return c11lib.WriteFile(".jsonl",
+				`{"host":"example.org","method":"GET","uri":"/j1","tag":"t1","headers":{"X-A":"a","X-B":"b"}}`+"\n"+
+					`{"host":"example.org","method":"POST","uri":"/j2","tag":"t2","headers":{"X-A":"a"},"body":"hello"}`+"\n"+
+					`{"host":"example.org","method":"GET","uri":"/j3","tag":"t3"}`+"\n")
+		}
+		var rows []string
+		for i := 1; i <= k; i++ {
+			var hj []string
+			for _, h := range hs {
+				hj = append(hj, fmt.Sprintf("%q:%q", h[0], h[1]))
+			}
+			if i >= 3 {
+				hj = append(hj, `"X-B":"b"`)
+			}
+			row := fmt.Sprintf(`{"host":"example.org","method":"GET","uri":"/j%d","tag":"t%d"`, i, i)
+			if i%2 == 0 {
+				row = fmt.Sprintf(`{"host":"example.org","method":"POST","uri":"/j%d","tag":"t%d","body":"%s"`, i, i, strings.Repeat("z", i))
+			}
+			if len(hj) > 0 {
+				row += `,"headers":{` + strings.Join(hj, ",") + `}`
+			}
+			rows = append(rows, row+"}")
+		}
+		if kv["arr"] == "1" {
+			return c11lib.WriteFile(".json", "[\n"+strings.Join(rows, ",\n")+"\n]\n")
+		}
+		return c11lib.WriteFile(".jsonl", strings.Join(rows, "\n")+"\n")
+	}
+	return ""
+}
+
 // poolYAML builds the pool description for one kind.
 func poolYAML(kind, addr string, kv map[string]string, n int, rps map[string]any) string {
 	gun := map[string]any{"target": addr}
@@ -427,34 +586,33 @@ func poolYAML(kind, addr string, kv map[string]string, n int, rps map[string]any
 		if sc > 0 {
 			gun["shared-client"] = map[string]any{"enabled": true, "client-number": sc}
 		}
-		ammo["headers"] = []string{"[X-Conf: conf]", "[Host: conf.example.org]"}
+		switch kv["chdr"] {
+		case "":
+			ammo["headers"] = []string{"[X-Conf: conf]", "[Host: conf.example.org]"}
+		case "nohost":
+			ammo["headers"] = []string{"[X-Conf: conf]"}
+		case "multi":
+			// one key with three values (the decoded value slice has spare capacity where it was built by appending)
+			ammo["headers"] = []string{"[X-Multi: a]", "[X-Multi: b]", "[X-Multi: c]", "[X-Conf: conf]"}
+		case "none":
+		}
 		if kv["pre"] == "1" {
 			ammo["preload"] = true
+		}
+		if mws := middlewares(kv["mw"]); mws != nil {
+			ammo["middlewares"] = mws
 		}
 		switch kind {
 		case "uri":
 			ammo["type"] = "uri"
-			pre := ""
-			switch kv["fail"] {
-			case "status":
-				pre = "/e500"
-			case "body":
-				pre = "/ebody"
-			}
-			ammo["file"] = c11lib.WriteFile(".uri", "[Host: example.org]\n[X-A: a]\n"+pre+"/one t1\n"+pre+"/two t2\n[X-B: b]\n"+pre+"/three\n"+pre+"/four t4\n")
 		case "uripost":
 			ammo["type"] = "uripost"
-			ammo["file"] = c11lib.WriteFile(".uripost", "[X-A: a]\n5 /p1 t1\nhello\n7 /p2 t2\nworld!!\n[X-B: b]\n3 /p3\nabc\n")
 		case "raw":
 			ammo["type"] = "raw"
-			ammo["file"] = c11lib.WriteFile(".raw", rawAmmo())
 		case "httpjson":
 			ammo["type"] = "http/json"
-			ammo["file"] = c11lib.WriteFile(".jsonl",
-				`{"host":"example.org","method":"GET","uri":"/j1","tag":"t1","headers":{"X-A":"a","X-B":"b"}}`+"\n"+
-					`{"host":"example.org","method":"POST","uri":"/j2","tag":"t2","headers":{"X-A":"a"},"body":"hello"}`+"\n"+
-					`{"host":"example.org","method":"GET","uri":"/j3","tag":"t3"}`+"\n")
 		}
+		ammo["file"] = httpAmmoFile(kind, kv)
 	case "httpscen":
 		gun["type"] = "http/scenario"
 		ammo["type"] = "http/scenario"
